@@ -338,9 +338,9 @@ type nestCase struct {
 func nestText(format string, level int, after bool) string {
 	if format == "md" {
 		if after {
-			return fmt.Sprintf("n%d.", level)
+			return fmt.Sprintf("n%dx", level)
 		}
-		return fmt.Sprintf("m%d.", level)
+		return fmt.Sprintf("m%dx", level)
 	}
 	if after {
 		return fmt.Sprintf("<u>k%d</u>", level)
@@ -427,7 +427,8 @@ func (c nestCase) build() (files map[string]string, main, want string, conversio
 	return
 }
 
-func mdnestSpace(maxDepth int) kit.Space {
+func mdnestSpace(tier string) kit.Space {
+	maxDepth := 3
 	var cases []nestCase
 	fm := []string{"html", "md"}
 	for depth := 1; depth <= maxDepth; depth++ {
@@ -439,6 +440,18 @@ func mdnestSpace(maxDepth int) kit.Space {
 			}
 			for _, via := range []string{"render", "macro"} {
 				for mask := 0; mask < 1<<(2*n); mask++ {
+					if tier != "thorough" && depth == 3 {
+						// quick: at three levels every level has both of its texts or none
+						both := true
+						for i := 0; i < n; i++ {
+							if b := mask >> (2 * i) & 3; b == 1 || b == 2 {
+								both = false
+							}
+						}
+						if !both {
+							continue
+						}
+					}
 					cases = append(cases, nestCase{via, formats, mask})
 				}
 			}
